@@ -177,8 +177,11 @@ def _widened_exact(ctx: Ctx, f: FunctionInfo, o: "Outcome", sec: ast.Call) -> bo
     class Sub(ast.NodeTransformer):
         def visit_Call(self, node):
             self.generic_visit(node)
-            if call_attr(node) == "applied_columns" and isinstance(node.func, ast.Attribute) and src(node.func.value) == "self" and [src(a) for a in node.args] == [cur]:
-                return ast.BinOp(left=ast.parse(atoms[0], mode="eval").body, op=ast.BitOr(), right=ast.parse(atoms[1], mode="eval").body)
+            if call_attr(node) == "applied_columns" and isinstance(node.func, ast.Attribute) and src(node.func.value) == "self" and len(node.args) == 1:
+                which = {cur: atoms[0], f"{cur}.target": atoms[2]}.get(src(node.args[0]))
+                if which is not None:
+                    # PartialJoin.applied_columns(x) is x.columns | fixed.columns (R04.4 decides that)
+                    return ast.BinOp(left=ast.parse(which, mode="eval").body, op=ast.BitOr(), right=ast.parse(atoms[1], mode="eval").body)
             return node
 
     e = Sub().visit(copy.deepcopy(arg))
